@@ -10,6 +10,7 @@ CN(n)       == [k |-> "cname", n |-> n]
 LitI(v)     == [k |-> "lit", ty |-> "int", v |-> v]
 LitB(v)     == [k |-> "lit", ty |-> "bool", v |-> v]
 LitS(v)     == [k |-> "lit", ty |-> "str", v |-> v]
+LitF(n, d)  == [k |-> "lit", ty |-> "float", v |-> [n |-> n, d |-> d]]       \* a python float n / d (d a power of two)
 LitN        == [k |-> "lit", ty |-> "null", v |-> NULL]
 Fn1(o, a)       == [k |-> "fn", op |-> o, a |-> <<a>>]
 Fn2(o, a, b)    == [k |-> "fn", op |-> o, a |-> <<a, b>>]
